@@ -1,3 +1,475 @@
 package interp
 
-func cmdCheck(args []string) int { return 2 }
+// `verif check <property> --tier quick|thorough`: run the property's
+// harnesses symbolically, replay candidates natively, classify against
+// known_findings.json, write evidence, print VIOLATION / KNOWN-FINDING.
+
+import (
+	"bytes"
+	"crypto/sha256"
+	"encoding/json"
+	"flag"
+	"fmt"
+	"os"
+	"os/exec"
+	"path/filepath"
+	"regexp"
+	"runtime"
+	"sort"
+	"strings"
+	"time"
+)
+
+type harnessSpec struct {
+	Name        string         `json:"name"`
+	Quick       map[string]int `json:"quick"`
+	Thorough    map[string]int `json:"thorough"`
+	Solver      string         `json:"solver,omitempty"`
+	ExpectPanic bool           `json:"expect_panic,omitempty"`
+	TimeoutMs   int            `json:"timeout_ms,omitempty"`
+	QuickOnly   bool           `json:"quick_only,omitempty"`
+	ThoroughOnly bool          `json:"thorough_only,omitempty"`
+}
+
+type propSpec struct {
+	Harnesses   []harnessSpec `json:"harnesses"`
+	Assumptions []string      `json:"assumptions"`
+}
+
+type knownFinding struct {
+	Property string `json:"property"`
+	Key      string `json:"key"`
+	What     string `json:"what"`
+	Status   string `json:"status"` // "known" | "fixed"
+	Commit   string `json:"commit,omitempty"`
+}
+
+var verifDir = envOr("VERIF_DIR", "/verif")
+
+func loadJSON(path string, v interface{}) error {
+	b, err := os.ReadFile(path)
+	if err != nil {
+		return err
+	}
+	return json.Unmarshal(b, v)
+}
+
+type replayFile struct {
+	Harness string         `json:"harness"`
+	Label   string         `json:"label"`
+	Key     string         `json:"key"`
+	Kind    string         `json:"kind"`
+	Msg     string         `json:"msg,omitempty"`
+	Bounds  map[string]int `json:"bounds"`
+	Vector  []ReplayVal    `json:"vector"`
+	Trace   string         `json:"trace,omitempty"`
+}
+
+type replayResult struct {
+	Failures []string
+	Panic    string
+	Vacuous  bool
+	Ran      bool
+}
+
+// nativeReplay runs the given replay files against the real build.
+func nativeReplay(P *Program, files []string, race bool) (map[string]*replayResult, string, error) {
+	res := map[string]*replayResult{}
+	if len(files) == 0 {
+		return res, "", nil
+	}
+	tmp, err := os.MkdirTemp("", "verif-replay-")
+	if err != nil {
+		return nil, "", err
+	}
+	defer os.RemoveAll(tmp)
+	// registry of harness functions
+	var rb bytes.Buffer
+	rb.WriteString("//go:build verif\n\npackage sod\n\nvar vhRegistry = map[string]func(){\n")
+	for _, h := range P.Harness {
+		fmt.Fprintf(&rb, "\t%q: %s,\n", h, h)
+	}
+	rb.WriteString("}\n")
+	regPath := filepath.Join(tmp, "registry.go")
+	os.WriteFile(regPath, rb.Bytes(), 0644)
+	ov := map[string]map[string]string{"Replace": {}}
+	hd := envOr("VERIF_HARNESS", filepath.Join(verifDir, "harness"))
+	ents, _ := os.ReadDir(hd)
+	for _, e := range ents {
+		if strings.HasSuffix(e.Name(), ".go") {
+			ov["Replace"][filepath.Join(P.RepoDir, "zz_verif_"+e.Name())] = filepath.Join(hd, e.Name())
+		}
+	}
+	ov["Replace"][filepath.Join(P.RepoDir, "zz_verif_registry.go")] = regPath
+	ob, _ := json.Marshal(ov)
+	ovPath := filepath.Join(tmp, "overlay.json")
+	os.WriteFile(ovPath, ob, 0644)
+	listPath := filepath.Join(tmp, "list.txt")
+	os.WriteFile(listPath, []byte(strings.Join(files, "\n")+"\n"), 0644)
+	args := []string{"test", "-tags", "verif", "-vet=off", "-count=1", "-overlay", ovPath, "-run", "^TestVerifReplay$", "-timeout", "300s", "-v"}
+	if race {
+		args = append(args, "-race")
+	}
+	args = append(args, ".")
+	cmd := exec.Command("go", args...)
+	cmd.Dir = P.RepoDir
+	cmd.Env = append(os.Environ(), "GOFLAGS=-mod=mod", "GOPROXY=off", "GOSUMDB=off", "GOTOOLCHAIN=local",
+		"VERIF_REPLAY_LIST="+listPath)
+	out, runErr := cmd.CombinedOutput()
+	re := regexp.MustCompile(`(?m)^VERIF-RESULT file=(\S+) failures=\[([^\]]*)\] vacuous=(\w+) panic=(.*)$`)
+	for _, m := range re.FindAllStringSubmatch(string(out), -1) {
+		r := &replayResult{Ran: true, Vacuous: m[3] == "true"}
+		if m[2] != "" {
+			r.Failures = strings.Split(m[2], ",")
+		}
+		p := strings.Trim(m[4], "\"")
+		r.Panic = p
+		res[m[1]] = r
+	}
+	if len(res) == 0 && runErr != nil {
+		return res, string(out), fmt.Errorf("native replay failed: %v", runErr)
+	}
+	return res, string(out), nil
+}
+
+type harnessReport struct {
+	Name        string         `json:"harness"`
+	Bounds      map[string]int `json:"bounds"`
+	Solver      string         `json:"solver"`
+	Paths       int            `json:"paths"`
+	Vacuous     int            `json:"vacuous_paths"`
+	Panicked    int            `json:"panicked_paths"`
+	Decisions   int            `json:"decisions"`
+	Obligations int            `json:"obligations"`
+	Discharged  int            `json:"discharged"`
+	ByConstant  int            `json:"discharged_without_solver"`
+	Queries     int            `json:"solver_queries"`
+	Sat         int            `json:"sat"`
+	Unsat       int            `json:"unsat"`
+	Unknown     int            `json:"unknown"`
+	SolverS     float64        `json:"solver_s"`
+	WallS       float64        `json:"wall_s"`
+	Exhaustive  bool           `json:"exhaustive"`
+	Incomplete  []string       `json:"incomplete_reasons,omitempty"`
+	Labels      map[string]int `json:"assert_labels_reached"`
+	Candidates  int            `json:"candidates"`
+}
+
+func cmdCheck(args []string) int {
+	fs := flag.NewFlagSet("check", flag.ExitOnError)
+	tier := fs.String("tier", envOr("VERIF_TIER", "quick"), "quick|thorough")
+	workers := fs.Int("workers", runtime.NumCPU(), "")
+	only := fs.String("only", "", "run only this harness")
+	fs.Parse(args)
+	if fs.NArg() != 1 {
+		fmt.Fprintln(os.Stderr, "check <property> [--tier quick|thorough]")
+		return 2
+	}
+	prop := fs.Arg(0)
+	seed := 0
+	fmt.Sscan(os.Getenv("VERIF_SEED"), &seed)
+	t0 := time.Now()
+
+	specs := map[string]propSpec{}
+	if err := loadJSON(filepath.Join(verifDir, "checks.json"), &specs); err != nil {
+		fmt.Fprintln(os.Stderr, "checks.json:", err)
+		return 2
+	}
+	spec, ok := specs[prop]
+	if !ok {
+		fmt.Fprintln(os.Stderr, "no check registered for", prop)
+		return 2
+	}
+	var known []knownFinding
+	if err := loadJSON(filepath.Join(verifDir, "known_findings.json"), &known); err != nil && !os.IsNotExist(err) {
+		fmt.Fprintln(os.Stderr, "known_findings.json:", err)
+		return 2
+	}
+	P, err := Load(envOr("VERIF_REPO", "/repo"), envOr("VERIF_HARNESS", filepath.Join(verifDir, "harness")))
+	if err != nil {
+		fmt.Fprintln(os.Stderr, "cannot load /repo with harness overlay:", err)
+		writeInfraEvidence(prop, *tier, seed, "load failed: "+err.Error(), time.Since(t0))
+		return 2
+	}
+	have := map[string]bool{}
+	for _, h := range P.Harness {
+		have[h] = true
+	}
+
+	var reports []harnessReport
+	var allV []*Violation
+	vBounds := map[*Violation]map[string]int{}
+	exhaustive := true
+	incomplete := []string{}
+	funcs := map[string]int{}
+	intr := map[string]int{}
+	assumes := map[string]int{}
+	var samples []interface{}
+	total := PathStats{}
+	var solverTot SolverStats
+	for _, hs := range spec.Harnesses {
+		if *only != "" && hs.Name != *only {
+			continue
+		}
+		if (*tier == "quick" && hs.ThoroughOnly) || (*tier == "thorough" && hs.QuickOnly) {
+			continue
+		}
+		if !have[hs.Name] {
+			fmt.Fprintln(os.Stderr, "harness missing:", hs.Name)
+			return 2
+		}
+		b := hs.Quick
+		if *tier == "thorough" && hs.Thorough != nil {
+			b = hs.Thorough
+		}
+		solver := hs.Solver
+		if solver == "" {
+			solver = "z3"
+		}
+		to := hs.TimeoutMs
+		if to == 0 {
+			to = 10000
+			if *tier == "thorough" {
+				to = 60000
+			}
+		}
+		t1 := time.Now()
+		ex := &Explorer{Prog: P, Harness: hs.Name, SolverName: solver, TimeoutMs: to, Workers: *workers,
+			Bounds: b, ExpectPanic: hs.ExpectPanic}
+		ex.Run()
+		st := ex.Stats
+		rep := harnessReport{Name: hs.Name, Bounds: b, Solver: solver, Paths: st.Paths, Vacuous: st.Vacuous,
+			Panicked: st.Panicked, Decisions: st.Decisions, Obligations: st.Obligations, Discharged: st.Discharged,
+			ByConstant: st.ConcreteObl, Queries: ex.Solver.Queries, Sat: ex.Solver.Sat, Unsat: ex.Solver.Unsat,
+			Unknown: ex.Solver.Unknown + ex.Solver.Errors, SolverS: ex.Solver.Time.Seconds(),
+			WallS: time.Since(t1).Seconds(), Labels: ex.Labels, Candidates: len(ex.Violations)}
+		rep.Exhaustive = st.Unsupported == 0 && st.CapHit == 0 && st.Inconclusive == 0 && len(ex.Unsupp) == 0 &&
+			st.Paths > st.Vacuous
+		for _, k := range ex.SortedKeys(ex.Unsupp) {
+			rep.Incomplete = append(rep.Incomplete, fmt.Sprintf("%s (x%d)", k, ex.Unsupp[k]))
+		}
+		if st.Paths == st.Vacuous {
+			rep.Incomplete = append(rep.Incomplete, "no non-vacuous path (vacuity guard)")
+		}
+		if !rep.Exhaustive {
+			exhaustive = false
+			for _, r := range rep.Incomplete {
+				incomplete = append(incomplete, hs.Name+": "+r)
+			}
+		}
+		reports = append(reports, rep)
+		for _, v := range ex.Violations {
+			allV = append(allV, v)
+			vBounds[v] = b
+		}
+		for k, n := range ex.Funcs {
+			funcs[k] = n
+		}
+		for k, n := range ex.Intrinsics {
+			intr[k] += n
+		}
+		for k, n := range ex.Assumes {
+			assumes[k] += n
+		}
+		for _, s := range ex.Samples {
+			if len(samples) < 6 {
+				samples = append(samples, map[string]string{"harness": hs.Name, "path": s})
+			}
+		}
+		total.Paths += st.Paths
+		total.Decisions += st.Decisions
+		total.Obligations += st.Obligations
+		total.Discharged += st.Discharged
+		total.Vacuous += st.Vacuous
+		solverTot.add(ex.Solver)
+		fmt.Fprintf(os.Stderr, "[%s] %s bounds=%v paths=%d obligations=%d/%d candidates=%d exhaustive=%v wall=%.1fs\n",
+			prop, hs.Name, b, st.Paths, st.Discharged, st.Obligations, len(ex.Violations), rep.Exhaustive, rep.WallS)
+	}
+
+	// ---- native replay of candidates ----
+	replayDir := filepath.Join(verifDir, "replays")
+	os.MkdirAll(replayDir, 0755)
+	sort.Slice(allV, func(a, b int) bool { return allV[a].Key < allV[b].Key })
+	const maxReplays = 40
+	var files []string
+	fileOf := map[*Violation]string{}
+	for n, v := range allV {
+		if n >= maxReplays {
+			exhaustive = false
+			incomplete = append(incomplete, fmt.Sprintf("%d candidates not replayed (cap %d)", len(allV)-maxReplays, maxReplays))
+			break
+		}
+		rf := replayFile{Harness: v.Harness, Label: v.Label, Key: v.Key, Kind: v.Kind, Msg: v.Msg,
+			Bounds: vBounds[v], Vector: v.Vector, Trace: v.Trace}
+		b, _ := json.MarshalIndent(rf, "", " ")
+		h := sha256.Sum256(b)
+		path := filepath.Join(replayDir, fmt.Sprintf("%s-%s-%x.json", prop, v.Harness, h[:5]))
+		os.WriteFile(path, b, 0644)
+		files = append(files, path)
+		fileOf[v] = path
+	}
+	results, rawOut, rerr := nativeReplay(P, files, false)
+	if rerr != nil {
+		fmt.Fprintln(os.Stderr, rerr)
+		fmt.Fprintln(os.Stderr, tailStr(rawOut, 3000))
+		writeInfraEvidence(prop, *tier, seed, "native replay infrastructure failed", time.Since(t0))
+		return 2
+	}
+	isKnown := func(key string) *knownFinding {
+		for k := range known {
+			if known[k].Property == prop && known[k].Status == "known" && known[k].Key == key {
+				return &known[k]
+			}
+		}
+		return nil
+	}
+	violations, unconfirmed := 0, 0
+	knownHit := map[string]bool{}
+	var vioSamples []interface{}
+	for _, v := range allV {
+		path, ok := fileOf[v]
+		if !ok {
+			continue
+		}
+		r := results[path]
+		confirmed := false
+		if r != nil && r.Ran && !r.Vacuous {
+			if v.Kind == "panic" {
+				confirmed = r.Panic != ""
+			} else {
+				for _, f := range r.Failures {
+					if f == v.Label {
+						confirmed = true
+					}
+				}
+			}
+		}
+		if !confirmed {
+			unconfirmed++
+			fmt.Fprintf(os.Stderr, "UNCONFIRMED candidate %s (native run did not reproduce; result=%+v) replay=%s\n", v.Key, r, path)
+			continue
+		}
+		if kf := isKnown(v.Key); kf != nil {
+			if !knownHit[v.Key] {
+				knownHit[v.Key] = true
+				fmt.Printf("KNOWN-FINDING: property=%s %s [key=%s]\n", prop, kf.What, v.Key)
+			}
+			os.Remove(path)
+			continue
+		}
+		violations++
+		fmt.Printf("VIOLATION property=%s replay=%s\n", prop, path)
+		fmt.Fprintf(os.Stderr, "  key=%s harness=%s vector=%v\n", v.Key, v.Harness, v.Vector)
+		if len(vioSamples) < 5 {
+			vioSamples = append(vioSamples, map[string]interface{}{"key": v.Key, "harness": v.Harness, "vector": v.Vector, "replay": path})
+		}
+	}
+	if unconfirmed > 0 {
+		exhaustive = false
+		incomplete = append(incomplete, fmt.Sprintf("%d solver candidates did not reproduce natively (encoder/model disagreement)", unconfirmed))
+	}
+	for _, f := range files {
+		if r := results[f]; r == nil || !r.Ran {
+			// keep file for inspection
+			continue
+		}
+	}
+
+	// ---- evidence ----
+	fnList := []string{}
+	for k, n := range funcs {
+		fnList = append(fnList, fmt.Sprintf("%s (%d instrs)", k, n))
+	}
+	sort.Strings(fnList)
+	inList := []string{}
+	for k, n := range intr {
+		if !strings.HasPrefix(k, hp) {
+			inList = append(inList, fmt.Sprintf("%s x%d", k, n))
+		}
+	}
+	sort.Strings(inList)
+	asList := append([]string{}, spec.Assumptions...)
+	for k := range assumes {
+		if !strings.HasPrefix(k, "vAssume@") {
+			asList = append(asList, k)
+		}
+	}
+	sort.Strings(asList)
+	if len(samples) == 0 {
+		samples = append(samples, "no symbolic path sampled")
+	}
+	samples = append(samples, vioSamples...)
+	if total.Paths == 0 {
+		total.Paths = 0
+	}
+	ev := map[string]interface{}{
+		"property_id": prop,
+		"tier":        *tier,
+		"seed":        seed,
+		"level":       "model_checking",
+		"coverage": map[string]interface{}{
+			"states":                        maxInt(total.Paths-total.Vacuous, 0),
+			"transitions":                   total.Decisions,
+			"traces_validated_against_impl": len(results),
+			"obligations":                   total.Obligations,
+			"discharged":                    total.Discharged,
+			"exhaustive":                    exhaustive,
+			"incomplete_reasons":            incomplete,
+			"samples":                       samples,
+			"harnesses":                     reports,
+			"functions_encoded":             fnList,
+			"environment_models_hit":        inList,
+			"solver_queries":                solverTot.Queries,
+			"solver_time_s":                 solverTot.Time.Seconds(),
+			"solver_max_query_s":            solverTot.MaxQuery.Seconds(),
+			"candidates":                    len(allV),
+			"candidates_unconfirmed":        unconfirmed,
+			"known_findings_reported":       len(knownHit),
+			"rule":                          "states = feasible symbolic paths through the harness (each covers every value of its symbolic inputs); transitions = decisions taken; every obligation is a solver query pc ∧ ¬assert (or constant-folded)",
+		},
+		"assumptions": asList,
+		"wall_s":      time.Since(t0).Seconds(),
+		"violations":  violations,
+	}
+	os.MkdirAll(filepath.Join(verifDir, "evidence"), 0755)
+	eb, _ := json.MarshalIndent(ev, "", " ")
+	if err := os.WriteFile(filepath.Join(verifDir, "evidence", prop+".json"), eb, 0644); err != nil {
+		fmt.Fprintln(os.Stderr, err)
+		return 2
+	}
+	fmt.Fprintf(os.Stderr, "[%s] tier=%s paths=%d obligations=%d/%d violations=%d known=%d unconfirmed=%d exhaustive=%v wall=%.1fs\n",
+		prop, *tier, total.Paths, total.Discharged, total.Obligations, violations, len(knownHit), unconfirmed, exhaustive, time.Since(t0).Seconds())
+	if violations > 0 {
+		return 1
+	}
+	if total.Paths-total.Vacuous <= 0 {
+		fmt.Fprintln(os.Stderr, "no path explored")
+		return 2
+	}
+	return 0
+}
+
+func maxInt(a, b int) int {
+	if a > b {
+		return a
+	}
+	return b
+}
+
+func tailStr(s string, n int) string {
+	if len(s) > n {
+		return s[len(s)-n:]
+	}
+	return s
+}
+
+func writeInfraEvidence(prop, tier string, seed int, why string, d time.Duration) {
+	ev := map[string]interface{}{
+		"property_id": prop, "tier": tier, "seed": seed, "level": "other",
+		"coverage": map[string]interface{}{"explanation": "infrastructure failure, no verdict: " + why, "exhaustive": false},
+		"wall_s":   d.Seconds(), "violations": 0,
+	}
+	os.MkdirAll(filepath.Join(verifDir, "evidence"), 0755)
+	eb, _ := json.MarshalIndent(ev, "", " ")
+	os.WriteFile(filepath.Join(verifDir, "evidence", prop+".json"), eb, 0644)
+}
